@@ -1560,6 +1560,12 @@ func (a *Authenticator) negotiateSecurity(negotiation *SecurityNegotiation) erro
 	// Find compatible authentication method - server preference order
 	negotiation.NegotiatedAuth = AuthNone
 	for _, serverAuth := range negotiation.ServerConfig.AuthMethods {
+		// A method this build cannot perform (PASSWORD is a stub) is not a
+		// mutually usable method: counting it would make PREFERRED/REQUIRED
+		// negotiations commit to an authentication that can only fail.
+		if !serverAuth.Implemented() {
+			continue
+		}
 		for _, clientAuth := range negotiation.ClientConfig.AuthMethods {
 			if serverAuth == clientAuth {
 				negotiation.NegotiatedAuth = serverAuth
